@@ -20,7 +20,9 @@ if "--checks" in args:
     checks = args[args.index("--checks") + 1].split(",")
 if "--tier" in args:
     tier = args[args.index("--tier") + 1]
-src = "/tmp/seed/%s/out" % prop
+root = args[args.index("--root") + 1] if "--root" in args else "/tmp/seed"
+tag = args[args.index("--tag") + 1] if "--tag" in args else ""
+src = "%s/%s/out" % (root, prop)
 diff = os.path.join(src, "mut%s.diff" % k)
 demo = os.path.join(src, "demo%s.py" % k)
 meta = json.load(open(os.path.join(src, "meta%s.json" % k)))
@@ -67,7 +69,7 @@ try:
             res[c]["tail"] = rc.stdout[-600:]
     out["checks"] = res
     out["caught_by"] = [c for c, v in res.items() if v["exit"] == 1]
-    dst = "/verif/seeded/%s_%s" % (prop, k)
+    dst = "/verif/seeded/%s_%s%s" % (prop, tag, k)
     os.makedirs(dst, exist_ok=True)
     shutil.copy(diff, os.path.join(dst, "patch.diff"))
     shutil.copy(demo, os.path.join(dst, "demo.py"))
